@@ -43,7 +43,7 @@ impl Pick for u32 {
             "type_index" => pickn(&[0, 1, 2]),
             "local_index" => pickn(&[0, 1, 2, 3, 4, 5, 6]),
             "data_index" => pickn(&[0, 1]),
-            "elem_index" => pickn(&[0, 1]),
+            "elem_index" => pickn(&[1, 2, 0]),
             "relative_depth" => 0,
             _ => 0,
         }
@@ -216,6 +216,8 @@ pub fn wrap(op: &wasm_encoder::Instruction, params: &[usize], drops: usize, tail
     }
     m.section(&ex);
     let mut elems = ElementSection::new();
+    // an empty segment first: the segments behind it must keep their indices
+    elems.passive(Elements::Functions(&[]));
     elems.passive(Elements::Functions(&[0, 1]));
     elems.passive(Elements::Functions(&[3]));
     m.section(&elems);
